@@ -349,6 +349,8 @@ class Contract:
         self.note = note
         self.call_writes = {}
         self.call_hook = None
+        self.variants = None      # list of {param: Shape | PNone()} overrides; verified once per variant
+        self.post_hints = None    # (ctx) -> extra premises (instances of separately proved lemmas)
         self.defaults = {}
         Contract.registry[qualname] = self
 
@@ -465,15 +467,31 @@ class Engine:
     def verify(self, qualname):
         """Generate all VCs for one function under its contract."""
         con = Contract.registry[qualname]
+        if con.variants:
+            info = None
+            for vi, var in enumerate(con.variants):
+                info = self._verify(qualname, con, var, '.v%d' % vi)
+            return info
+        return self._verify(qualname, con, {}, '')
+
+    def _verify(self, qualname, con, variant, vtag):
         node, info, src = self.src.function(qualname)
-        self.functions.append(info)
+        if info not in self.functions:
+            self.functions.append(info)
         self.cur = FnCtx(self, con, node, qualname, src)
+        self.cur.short = self.cur.short + vtag
         fc = self.cur
         st = State()
         args = {}
         for name, shp in con.params.items():
+            if name in variant:
+                ov = variant[name]
+                args[name] = ov if isinstance(ov, Val) else fresh(ov, name)
+                continue
             args[name] = fresh(shp, name)
         formal = [a.arg for a in node.args.args]
+        if node.args.kwonlyargs or node.args.vararg or node.args.kwarg:
+            raise Unsupported('%s: *args/**kwargs/keyword-only parameters' % qualname)
         for name in formal:
             if name not in args:
                 # parameter with a default not mentioned in the contract: bind its default
@@ -524,10 +542,18 @@ class Engine:
         after = {}
         for m in con.mutates:
             after[m] = st.env[m]
+        for m in con.params:
+            if m.startswith('$'):
+                after[m] = st.env[m]
         if 'self' in con.params:
             after['self'] = st.env['self']
         c = Ctx(fc.entry.args, result=res, after=after, eng=self)
-        self.reach.setdefault(fc.qualname, []).append(list(st.pc))
+        self.reach.setdefault(fc.qualname + (fc.short[len(fc.qualname.partition(':')[2]):]), []).append(list(st.pc))
+        hints = list(con.post_hints(c)) if con.post_hints else []
+        if hints:
+            st = st.fork()
+            for h in hints:
+                st.assume(h)
         fits = []
         for case in con.cases:
             try:
@@ -879,15 +905,21 @@ class Engine:
                 q = self.cur.resolve_call_name(n)
                 if q is not None and q in Contract.registry:
                     con = Contract.registry[q]
-                    pnames = [p for p in con.params if p != 'self']
+                    pnames = [p for p in con.params if p != 'self' and not p.startswith('$')]
                     for pi, p in enumerate(pnames):
                         if p in con.mutates and pi < len(n.args):
                             note(n.args[pi])
+                    for p in con.params:
+                        if p.startswith('$'):
+                            res[p] = None
                     if 'self' in con.params and con.self_modifies and isinstance(n.func, ast.Attribute):
                         for fld in con.self_modifies:
                             note(ast.Attribute(value=n.func.value, attr=fld, ctx=ast.Load()))
                 for h in self.cur.con.call_writes.get(getattr(n.func, 'attr', getattr(n.func, 'id', None)), ()):
-                    note(ast.parse(h, mode='eval').body)
+                    if h.startswith('$'):
+                        res[h] = None
+                    else:
+                        note(ast.parse(h, mode='eval').body)
         return res
 
     def _havoc(self, st, writes, spec, tag):
@@ -1004,6 +1036,9 @@ class Engine:
             obj = self.eval(tgt.value, st)
             if not isinstance(obj, PObj):
                 raise Unsupported('attribute store on %r' % (obj,))
+            shp = fc.con.params.get('self') if isinstance(tgt.value, ast.Name) and tgt.value.id == 'self' else None
+            if isinstance(shp, ObjShape) and tgt.attr in shp.fields:
+                v = self.coerce_field(v, shp.fields[tgt.attr])
             self.assign(tgt.value, obj.with_field(tgt.attr, v), st)
         elif isinstance(tgt, ast.Subscript):
             c = self.eval(tgt.value, st)
@@ -1015,6 +1050,16 @@ class Engine:
             self.assign(tgt.value, c2, st)
         else:
             raise Unsupported('assignment target %s' % type(tgt).__name__)
+
+    def coerce_field(self, v, fshape):
+        if isinstance(fshape, TBag) and isinstance(v, PList) and not v.items:
+            return ZV(fshape, z3.K(fshape.elem.sort(), z3.IntVal(0)))
+        if isinstance(fshape, (ObjShape, FunShape)) or isinstance(v, (PObj, PFun)):
+            return v
+        try:
+            return unbox(box(v, fshape), fshape)
+        except Unsupported:
+            return v
 
     def unpack(self, v, n, st):
         if isinstance(v, (PTuple, PList)):
@@ -1482,6 +1527,8 @@ class Engine:
                 return ZV(TInt, simp(x - y), pv)
             if isinstance(op, ast.Mult):
                 return ZV(TInt, simp(x * y), pv)
+            if isinstance(op, ast.Pow) and a.pyval is not None and b.pyval is not None and b.pyval >= 0:
+                return zint(a.pyval ** b.pyval)
             if isinstance(op, ast.FloorDiv):
                 self.safety(st, y != 0, 'div0', node)
                 return ZV(TInt, x / y)   # z3 int division floors for positive divisors
